@@ -167,13 +167,13 @@ Section ORACLES.
       fmt_chk c (if req_int then "integer" else "number") v;
       if c_exMin c then
         match c_min c with
-        | None => CPanic "exclusiveMinimum without minimum"
+        | None => COk     (* the flag alone constrains nothing *)
         | Some m => if PrimFloat.ltb m x then COk else CFail (ESchema S_exMin c [] v []) true
         end
       else COk;
       if c_exMax c then
         match c_max c with
-        | None => CPanic "exclusiveMaximum without maximum"
+        | None => COk
         | Some m => if PrimFloat.ltb x m then COk else CFail (ESchema S_exMax c [] v []) true
         end
       else COk;
@@ -187,8 +187,7 @@ Section ORACLES.
       end;
       match c_mult c with
       | Some m => let q := PrimFloat.div x m in
-                  if f_is_nan q then CPanic "multipleOf: big.NewFloat(NaN)"
-                  else if f_is_int q then COk else CFail (ESchema S_mult c [] v []) true
+                  if f_is_int q then COk else CFail (ESchema S_mult c [] v []) true   (* NaN and Inf are not integers *)
       | None => COk
       end ].
 
